@@ -8,7 +8,9 @@ for s in sorted(m):
     d = os.path.join(ROOT, s)
     desc = ""
     meta = json.load(open(os.path.join(d, "meta.json")))
-    if meta.get("what"):
+    if meta.get("summary"):
+        desc = meta["summary"]
+    elif meta.get("what"):
         desc = meta["what"]
     else:
         notes = open(os.path.join(d, "NOTES.md")).read() if os.path.exists(os.path.join(d, "NOTES.md")) else ""
@@ -18,8 +20,8 @@ for s in sorted(m):
             if t and not t.startswith("#") and len(t) > 25:
                 desc = re.sub(r"[`*]", "", t)
                 break
-    DESC[s] = desc[:150]
-print("| seed | targets | change (from its NOTES.md) | caught by (quick tier) | silent |")
+    DESC[s] = desc[:170]
+print("| seed | targets | change | caught by (quick tier) | also run, silent |")
 print("|---|---|---|---|---|")
 for s in sorted(m):
     r = m[s]
